@@ -229,9 +229,11 @@ def judgeState (s : Q Float) (cur : Nat → Aabb3 Float) (live : List Nat) (afte
   else if !checkFreeBound s then some "inv-free-list-out-of-range"
   else if sortNat (collect s (s.nodes.size + 1) 0) != sortNat live then some "reachable-leaves-differ-from-live-set"
   else if !checkDirty s then some "dirty-flag-not-queued"
+  else if !checkData s then some "proxy-data-differs-from-index"
   else if afterRefit then
     if !s.dirtyNodes.isEmpty then some "dirty-left-after-refit"
     else if !checkBox (toRat s) (fun d => qbox (cur d)) then some "box-not-containing-below-after-refit"
+    else if !checkFresh (toRat s) (fun d => qbox (cur d)) then some "box-not-containing-fresh-after-refit"
     else none
   else none
 
